@@ -51,6 +51,32 @@ def handleBell (op : String) (j : Json) : Option Json :=
     pure (Json.mkObj [("rots", match requestRots Gen.bases (optName "bl") (optName "br") rl rr with
       | some (l, r) => ofNats (serRots l r)
       | none => Json.null)])
+  else if op == "bell.history" then do
+    let arr ← (jField? j "reqs").bind jArr?
+    let parse := fun (q : Json) => do
+      let entry ← (jField? q "entry").bind jStr?
+      let number ← (jField? q "number").bind jNat?
+      let expect ← (jField? q "expect").bind jBool?
+      let post ← (jField? q "post").bind jBool?
+      let sequential ← (jField? q "sequential").bind jBool?
+      let optName := fun (k : String) => match jField? q k with
+        | some v => jStr? v
+        | none => none
+      let rot := fun (k : String) => do
+        let l ← (jField? q k).bind jNats?
+        match l with
+        | [a, b, c] => some ((a, b, c) : Rot)
+        | _ => none
+      let rl ← rot "rl"
+      let rr ← rot "rr"
+      pure (⟨entry, number, expect, post, sequential, optName "bl", optName "br", rl, rr⟩ : Request)
+    let reqs ← arr.toList.mapM parse
+    let served := ((jField? j "served").bind jNat?).getD 0
+    pure (Json.mkObj [("params", Json.arr ((runSocket Gen.bases ⟨served⟩ reqs).map (fun o => match o with
+      | some p => Json.mkObj [("number", toJson p.number), ("expect", toJson p.expect), ("post", toJson p.post),
+          ("sequential", toJson p.sequential), ("rots", ofNats (serRots p.rotL p.rotR)),
+          ("post_process", toJson p.postProcess)]
+      | none => Json.null)).toArray)])
   else if op == "bell.gates" then do
     let bv ← (jField? j "bv").bind jInt?
     pure (Json.mkObj [("gates", Json.arr ((Gen.singlePair.gates bv).map
